@@ -525,26 +525,47 @@ func (env *Env) trBin(e *E) Val {
 	return Val{}
 }
 
-// bit operations on non-negative ints via 64-bit vectors
+// Bit operations. Constant operands fold; a symbolic value combined with a constant
+// mask uses the uninterpreted band/bandnot/bor (prelude axioms: range, single-bit masks)
+// with term-level rewriting of nested masks; two symbolic operands fall back to bit-vectors.
 func bitop(op, a, b string) string {
-	if x, err := strconv.ParseUint(a, 10, 64); err == nil {
-		if y, err := strconv.ParseUint(b, 10, 64); err == nil {
-			var r uint64
-			switch op {
-			case "&":
-				r = x & y
-			case "|":
-				r = x | y
-			case "^":
-				r = x ^ y
-			case "&^":
-				r = x &^ y
-			case "<<":
-				r = x << y
-			case ">>":
-				r = x >> y
+	x, errA := strconv.ParseUint(a, 10, 64)
+	y, errB := strconv.ParseUint(b, 10, 64)
+	if errA == nil && errB == nil {
+		var r uint64
+		switch op {
+		case "&":
+			r = x & y
+		case "|":
+			r = x | y
+		case "^":
+			r = x ^ y
+		case "&^":
+			r = x &^ y
+		case "<<":
+			r = x << y
+		case ">>":
+			r = x >> y
+		}
+		return fmt.Sprint(r)
+	}
+	if errA == nil && (op == "&" || op == "|") { // constant on the left: commute
+		return bitop(op, b, a)
+	}
+	if errB == nil {
+		switch op {
+		case "&":
+			return bandConst(a, y)
+		case "&^":
+			if y == 0 {
+				return a
 			}
-			return fmt.Sprint(r)
+			return fmt.Sprintf("(bandnot %s %d)", a, y)
+		case "|":
+			if y == 0 {
+				return a
+			}
+			return fmt.Sprintf("(bor %s %d)", a, y)
 		}
 	}
 	f := map[string]string{"&": "bvand", "|": "bvor", "^": "bvxor", "<<": "bvshl", ">>": "bvlshr"}[op]
@@ -552,6 +573,39 @@ func bitop(op, a, b string) string {
 		return "(bv2nat (bvand ((_ int2bv 64) " + a + ") (bvnot ((_ int2bv 64) " + b + "))))"
 	}
 	return "(bv2nat (" + f + " ((_ int2bv 64) " + a + ") ((_ int2bv 64) " + b + ")))"
+}
+
+// bandConst: t & k with nested-mask rewriting.
+func bandConst(t string, k uint64) string {
+	if k == 0 {
+		return "0"
+	}
+	for _, fn := range []string{"bandnot", "bor", "band"} {
+		if strings.HasPrefix(t, "("+fn+" ") {
+			parts := splitSexp(t[1 : len(t)-1])
+			if len(parts) == 3 {
+				if m, err := strconv.ParseUint(parts[2], 10, 64); err == nil {
+					switch fn {
+					case "bandnot": // (x &^ m) & k
+						if k&m == k {
+							return "0"
+						}
+						return bandConst(parts[1], k&^m)
+					case "bor": // (x | m) & k
+						if k&m == k {
+							return fmt.Sprint(k)
+						}
+						if k&m == 0 {
+							return bandConst(parts[1], k)
+						}
+					case "band": // (x & m) & k
+						return bandConst(parts[1], k&m)
+					}
+				}
+			}
+		}
+	}
+	return fmt.Sprintf("(band %s %d)", t, k)
 }
 
 func (env *Env) isNil(v Val) string {
@@ -674,6 +728,16 @@ func (env *Env) trCall(e *E) Val {
 			return true
 		}()
 		return Val{S: "(unbox_Int " + x.S + ")", Sort: "Int"}
+	case "cast": // cast(x, T): x viewed as a pointer to the package type T
+		x := arg(0)
+		if len(e.A) != 2 || e.A[1].K != "id" || env.tpkg == nil {
+			sfail("cast(x, TypeName)")
+		}
+		obj := env.tpkg.Scope().Lookup(e.A[1].S)
+		if obj == nil {
+			sfail("cast: unknown type %s", e.A[1].S)
+		}
+		return Val{S: x.S, Sort: "Int", G: types.NewPointer(obj.Type())}
 	case "sameStr": // structural identity of two string values (same array window)
 		a, b := env.view(arg(0)), env.view(arg(1))
 		return Val{S: eq(a.S, b.S), Sort: "Bool"}
@@ -744,11 +808,13 @@ func (env *Env) callSpecFunc(sf *SpecFunc, e *E) Val {
 	}
 	m.ensureSpecFunc(sf, env)
 	var args []string
+	var inl []Val
 	for i, p := range sf.Params {
 		ps, _ := denv.specSort(p.Type)
 		a := env.tr(e.A[i])
 		if ps == "Str" {
 			a = env.view(a)
+			inl = append(inl, a)
 			if sf.Body == nil || sf.Opaque {
 				args = append(args, sArr(a.S), sOff(a.S), sHi(a.S))
 				continue
@@ -768,10 +834,32 @@ func (env *Env) callSpecFunc(sf *SpecFunc, e *E) Val {
 		if a.Sort == "Nil" {
 			a.S = "0"
 		}
+		if ps != "Str" {
+			inl = append(inl, Val{S: a.S, Sort: ps, G: a.G})
+		}
 		args = append(args, a.S)
 	}
 	rs, rg := denv.specSort(sf.Ret)
 	name := "sf_" + sf.Name
+	// a defined function applied to a numeric constant is expanded in place so that
+	// constant bit masks and arithmetic fold (e.g. wantMode(66))
+	if sf.Body != nil && !sf.Opaque {
+		numeral := false
+		for _, a := range inl {
+			if _, err := strconv.ParseInt(a.S, 10, 64); err == nil && a.Sort == "Int" {
+				numeral = true
+			}
+		}
+		if numeral {
+			ienv := &Env{m: m, tpkg: env.tpkg, spkg: env.spkg, inDef: true, vars: map[string]Val{}}
+			for i, p := range sf.Params {
+				ienv.vars[p.Name] = inl[i]
+			}
+			r := ienv.tr(sf.Body)
+			r.Bltn = ""
+			return r
+		}
+	}
 	if len(args) == 0 {
 		return Val{S: name, Sort: rs, G: rg}
 	}
